@@ -16,6 +16,17 @@ Theorem C05_pwb_exact : forall macs m l f, bytes l ->
 Proof. exact pwb_exact_lemma. Qed.
 Print Assumptions C05_pwb_exact.
 
+(* the acceptance condition as the bullet list of the property text, stated on the input bytes alone ([pwb_wf] in
+   Codec/Pwb_proofs.v): at least 56 bytes, version 2, chip 'A'..'D', compression 0, trigger source 0/1/3, known MAC,
+   zero bytes 18-19, last SCA cell and requested samples <= 511, bit 79 clear in both masks, exactly
+   56 + bytes_per_channel * (number of set bits of the sent mask) bytes, for the k-th set bit a block at
+   52 + k * bytes_per_channel carrying that channel's readout index, the requested count and zero padding iff odd,
+   and CC CC CC CC as the last four bytes *)
+Theorem C05_pwb_accept_iff_wf : forall macs m l, bytes l ->
+  ((exists f, pwb_decode macs m l = Ok f) <-> pwb_wf macs l).
+Proof. exact pwb_accept_iff_wf_lemma. Qed.
+Print Assumptions C05_pwb_accept_iff_wf.
+
 (* ---- every sent channel has its full waveform ---- *)
 (* For a packet satisfying the field rules (by C05_pwb_exact: every accepted packet) and a channel c that was sent:
    c is the k-th sent channel, waveform_at returns -- without panic, in both overflow modes -- exactly the samples w
